@@ -90,7 +90,7 @@ def handle6 (op : String) (a obs : List String) : Option Verdict :=
     let model :=
       if style == "drop_all" then
         ["accept_uni=-", "accept_bi=-", "recv_dgram=-", "later_accept_uni=-", "later_open_uni=-", "later_open_bi=-",
-         "closed=-", "held_read=-", "held_write=-", s!"peer_close={peer}", "held_finish=-"]
+         "closed=-", "held_read=-", "held_write=-", s!"peer_close={peer}", "held_finish=-", "held_opening=-"]
       else
         [s!"accept_uni={via}", s!"accept_bi={via}", s!"recv_dgram={via}", s!"later_accept_uni={via}",
          s!"later_open_uni={dir}", s!"later_open_bi={dir}", s!"closed={dir}", s!"held_read={held}",
@@ -104,7 +104,10 @@ def handle6 (op : String) (a obs : List String) : Option Verdict :=
               | some (.ok ()) => "ok"
               | _ => "?"
             s!"held_finish={one false},{one true}"
-          else "held_finish=-")]
+          else "held_finish=-"),
+         -- opening futures obtained before the end and awaited after it: the stream header cannot
+         -- be written any more — `StreamOpeningError::NotConnected`, never a refusal by the peer
+         (if whenS == "pending" then "held_opening=not_connected,not_connected" else "held_opening=-")]
     -- the property on the observation: every call ends, with the actual cause or (where the
     -- library itself shut the transport down) a local close; peer codes and reasons exact
     let actual := connErr (Result.actual cause)
@@ -133,6 +136,8 @@ def handle6 (op : String) (a obs : List String) : Option Verdict :=
              let ignorable := fs.all (fun f => Spec.isGrease f.1 || f.1 == 0x42)
              let abrupt := style == "raw_reset" || !(specRest (reason.length + 1) reason).isEmpty
              !(ignorable && abrupt) || calls.all (fun c => !(field obs c).startsWith "app:"))),
+         ("opening_futures_report_the_end_not_a_refusal", whenS != "pending" ||
+            (splitList (field obs "held_opening")).all (fun r => r == "not_connected")),
          ("peer_told", field obs "peer_close" != "alive")])
     pure (model, prop)
   | "answer.late" => do
